@@ -1131,7 +1131,7 @@ fn main() {
     let thorough = args.tier == "thorough";
     let mut out = Out::new(&args.out, args.shards, "C04.Corr", "case", args.only);
     let bs = builders(thorough);
-    let limit = if thorough { 6000 } else { 420 };
+    let limit = if thorough { 30000 } else { 420 };
     let mut id: u64 = 0;
     for b in &bs {
         // rows: the default builder, the boundary grid, the malformed stream
